@@ -70,6 +70,7 @@ func (s *SignedLatency) OnPing(pingReqID uint32) error {
 
 	// Compute metrics data and send to client
 	var min, max, mean, p95, last float32
+	var sum float64
 	var latencies []float32
 
 	for _, v := range s.PingRequests {
@@ -81,9 +82,12 @@ func (s *SignedLatency) OnPing(pingReqID uint32) error {
 		if latency > max {
 			max = latency
 		}
-		mean += latency
+		sum += float64(latency)
 	}
-	mean = float32(math.Round(float64(mean) / float64(len(s.PingRequests))))
+	// The sum is accumulated in float64: a float32 accumulator loses the low
+	// bits of latencies above 2^24 us, which could push the mean outside of
+	// [min, max].
+	mean = float32(math.Round(sum / float64(len(s.PingRequests))))
 	// The last latency is the one of the round that has just been answered,
 	// not whichever sample the map iteration happened to yield last.
 	lastRound := s.PingRequests[pingReqID]
